@@ -2136,6 +2136,57 @@ func init() {
 		Run:  runR74})
 }
 
+// isDeclaredRegistration: the call hands the elements of a []string parameter of its function (the declared
+// values), one per iteration of a range over that parameter, to a method of an object allocated in that same
+// function (a factory under construction). The table built that way is an element-wise copy of the declared list.
+func isDeclaredRegistration(call *ssa.Call) bool {
+	fn := call.Parent()
+	args := call.Call.Args
+	if len(args) < 2 {
+		return false
+	}
+	// receiver rooted at an allocation of this function
+	recv := args[0]
+	for {
+		switch t := recv.(type) {
+		case *ssa.FieldAddr:
+			recv = t.X
+			continue
+		case *ssa.UnOp:
+			recv = t.X
+			continue
+		}
+		break
+	}
+	if _, ok := recv.(*ssa.Alloc); !ok {
+		return false
+	}
+	for _, li := range loopsOf(fn) {
+		if li.base == nil || !inLoop(li, call.Block()) {
+			continue
+		}
+		prm, ok := li.base.(*ssa.Parameter)
+		if !ok {
+			continue
+		}
+		sl, ok := prm.Type().Underlying().(*types.Slice)
+		if !ok {
+			continue
+		}
+		if b, ok := sl.Elem().Underlying().(*types.Basic); !ok || b.Kind() != types.String {
+			continue
+		}
+		for _, a := range args[1:] {
+			if ld, ok := stripConv(a).(*ssa.UnOp); ok && ld.Op == token.MUL {
+				if ia, ok := ld.X.(*ssa.IndexAddr); ok && ia.X == ssa.Value(prm) && rangeKeyOf(ia.Index, prm) {
+					return true
+				}
+			}
+		}
+	}
+	return false
+}
+
 func runR74(c *Ctx) {
 	p := c.P
 	pkg := "internal/ecolumn"
@@ -2175,6 +2226,9 @@ func runR74(c *Ctx) {
 		for _, call := range callers[fn] {
 			if failedLookup(call.Block(), nil) {
 				continue
+			}
+			if isDeclaredRegistration(call) {
+				continue // category (b): an element-wise copy of the declared values into a fresh factory
 			}
 			if !guardedEntry(call.Parent(), d+1) {
 				return false
